@@ -2,6 +2,7 @@ import KdVerif.Props.C02
 import KdVerif.Proofs.ContainerV3
 import KdVerif.Proofs.Blocks
 import KdVerif.Proofs.EndToEnd
+import KdVerif.Proofs.PyIRRdKd
 /-
   C03 — a version-3 dump yields all chunked events, then logs, plus metadata sections.
 
@@ -427,5 +428,37 @@ example :
     EndToEnd.formattedTraces EndToEnd.exEnv {} {} exPlist (file.take 150) = ([], some .streamError) ∧
     (EndToEnd.formattedTraces EndToEnd.exEnv {} {} (fun _ => some ⟨false, [], none, none, none⟩) file).2 = none := by
   decide +kernel
+
+/-! ### Translation tie: the source text of `seek_until` and of `parse_v3` up to the end of its chunk loop
+
+  (`tools/gen_pyir_rd.py` → `Gen/PyIRRd.lean`, IR and interpreter `Model/PyIRRd`; see `Props/C02`.) -/
+
+/-- **The translated source is the program the refinement lemmas were proved for.** -/
+theorem source_is_expected_ir : Gen.PyIRRd.prog = PyIRRd.Expected.prog ∧ Gen.PyIRRd.notes = [] := by decide
+
+/-- **`seek_until`, interpreted, is `seekUntil`** — for every tag and every reader state: same outcome (found /
+    `EOFError`), same position, same read counters.  With `seekUntil_first_occurrence`: the interpreted source stops
+    exactly behind the FIRST occurrence of the tag. -/
+theorem seek_until_ir_eq_model (tag : Bytes) (r : Reader) :
+    PyIRRd.runSeek Gen.PyIRRd.prog.seekUntil tag r = seekUntil tag r := by
+  rw [source_is_expected_ir.1]; exact PyIRRd.runSeek_expected tag r
+
+/-- **`parse_v3`, interpreted up to the end of its chunk loop, then the hand-modelled tail, is `parseV3`** — header,
+    realignment read, both scans, thread-map chunk, `set_thread_map`, and the chunk loop with `size // 64` records
+    per chunk and the MORE continuation — for every reader state and prior parser state. -/
+theorem parse_v3_ir_eq_model (plist : Bytes → Option PView) (prior : PState) (r : Reader) (g : r.pos ≤ r.data.length) :
+    parseV3 plist fromKdBuf prior r = PyIRRd.viaV3 Gen.PyIRRd.prog plist fromKdBuf prior r := by
+  rw [source_is_expected_ir.1]
+  exact PyIRRd.parseV3_via_ir plist fromKdBuf PyIRRd.kd_rejectsShort PyIRRd.kd_noHang prior r g
+
+/-- **The subject of every C03 theorem is the interpreted source.** -/
+theorem parse_is_interpreted_source (plist : Bytes → Option PView) (prior : PState) (data : Bytes) :
+    parse plist fromKdBuf prior data = PyIRRd.parseVia Gen.PyIRRd.prog plist fromKdBuf prior data :=
+  PyIRRd.parse_eq_parseVia_gen source_is_expected_ir plist prior data
+
+/-- non-vacuity: the generated `seek_until`, interpreted, finds a tag behind a near miss and stops behind it -/
+example : (PyIRRd.runSeek Gen.PyIRRd.prog.seekUntil [1, 2, 3] (Reader.ofBytes [9, 1, 2, 1, 2, 3, 7])).1.toOption = some () ∧
+    (PyIRRd.runSeek Gen.PyIRRd.prog.seekUntil [1, 2, 3] (Reader.ofBytes [9, 1, 2, 1, 2, 3, 7])).2 =
+      { data := [9, 1, 2, 1, 2, 3, 7], pos := 6, calls := 4, got := 6, req := 6 } := by decide
 
 end KdVerif.C03
